@@ -386,3 +386,39 @@ reg(
     "the grid. Two defect families are reported under fixed signatures (inner-array / component-parameter attribute in a component "
     "array), see known_findings / out/proposed.",
 )
+
+reg(
+    "C14",
+    "E4-enum",
+    "exploration",
+    "triangular-bijective model family x option sets near default / all-on; exact rational projection of the solution set vs the simplified residual's rows",
+    "Models with one state, one input, parameters (one defined by an expression), a constant and n = 3 (thorough 4) algebraic "
+    "unknowns, each defined from an earlier quantity by one of 19 forms (6 alias spellings, 6 constant assignments, 4 affine forms "
+    "with constant factors, 2 if-else forms, and a neutral one): complete for <= 1 special form (every position, dependency pattern, "
+    "state equation; every permutation of the equation list on the chain pattern), for every pair of special forms, and for every "
+    "full-length chain over 6 core forms; under every set of the 13 simplification switches and eliminable_variable_expression within "
+    "Hamming distance 1 of the default and of all-on (distance 2, thorough, on the core pairs) and 9 named sets elsewhere. The real "
+    "generate + simplify runs on each; an exception or logged warning counts as reported failure. Otherwise, for affine models the "
+    "decision is exact: every recorded elimination (signed alias pair, algebraic unknown turned constant with its value) must be a "
+    "linear consequence of the original rows, and the projection of the original solution set onto the remaining coordinates must "
+    "have the row space of the simplified residual's rows (read off the real function at 0 and unit vectors, affinity verified); for "
+    "all models the recorded eliminations hold and the simplified residual vanishes with full-rank Jacobian at the unique solution "
+    "for three (state, input) points.",
+    "Parameter / constant values fed to the functions come from the reference, matched by name; reduce_affine_expression is judged on "
+    "affine models only; models have no initial equations, arrays or delays (C16, C18, C12 cover those passes); numeric coefficients "
+    "are recovered as rationals with denominators <= 10^6.",
+)
+
+reg(
+    "C15",
+    "E4-enum",
+    "exploration",
+    "same model family x option sets as C14; unknown/equation balance before vs after simplify and constructibility of the output functions",
+    "The C14 enumeration (regular square models by construction, squareness checked before simplification) is run through the real "
+    "generate + simplify; afterwards (#states + #algebraic states) - (#entries of the DAE residual) must be unchanged, states and "
+    "derivative states must pair up, dae_residual_function, initial_residual_function and variable_metadata_function must be "
+    "constructible and the DAE residual evaluable from the model's own variable lists (no dangling eliminated symbol).",
+    "An exception raised by simplify() itself is not judged unless it names a dangling model variable (e.g. the crash of "
+    "reduce_affine_expression applied twice under iterative_simplification trips over its internal vectors and is reported only "
+    "in DESIGN.md); scalar variables only.",
+)
